@@ -103,6 +103,11 @@ def handleReport (line : String) : String :=
                 let need := (its.length * prcnt + 99) / 100
                 let topOk := prcnt == 0 || rankedFlagged ≥ need
                 let allOk := prcnt != 100 || unflaggedRaws.isEmpty
+                -- the threshold the Go code computed is one of the observed access values (C15: "the threshold is one of the
+                -- observed access values") — judged on the value the cut-off function returned, not on the marks
+                (match cutS.toNat? with
+                 | some c => if raws.contains c then [] else [s!"C15:threshold-not-observed:cut={c}:p={prcnt}"]
+                 | none => []) ++
                 (if !shapeOk then ["C14:lines"] else []) ++ (if !contentOk then ["C14:content"] else []) ++
                 (if !upward then ["C15:upward"] else []) ++ (if !topOk then [s!"C15:top:p={prcnt}:flagged={rankedFlagged}:need={need}"] else []) ++
                 (if !allOk then ["C15:all"] else [])
